@@ -86,7 +86,7 @@ func TestC07(t *testing.T) {
 	if shard0() {
 		regressC07(t, c)
 	}
-	rapid.Check(t, func(rt *rapid.T) {
+	checkRapid(t, c, func(rt *rapid.T) {
 		h := hostileFrame(rt)
 		c.Eval()
 		cls := parseTotal(c, rt, h.b, h.kind, h.muts, true)
